@@ -1,5 +1,6 @@
 /- Line-protocol engine for C11 (event streaming). See go/overlay/internal/verifharness/c11. -/
 import CV.Stream
+import CV.StreamSubject
 namespace CV.Engine.C11
 open CV CV.Stream
 
@@ -148,6 +149,25 @@ def stepLine (s : St) (toks : List String) : St × String :=
            (match getClient s.sys id with
             | none => (s, "noclient")
             | some c => if attached c then ({ s with sys := unsub s.sys id }, "ok") else (s, "nosub"))
+       | none => (s, "bad-op"))
+  | ["subj", svc, ov, peer] =>
+      -- routing key of a published event (stateless)
+      (match decS svc, decS ov, decS peer with
+       | some svc, some ov, some peer => (s, encS (publisherSubj svc ov peer).str)
+       | _, _, _ => (s, "bad-op"))
+  | ["subsubj", name, peer] =>
+      (match decS name, decS peer with
+       | some name, some peer => (s, encS (subscriberSubj name peer).str)
+       | _, _ => (s, "bad-op"))
+  | ["route", svc, ov, name] =>
+      -- does an event for (svc, override) land in the buffer a subscriber of `name` reads?
+      (match decS svc, decS ov, decS name with
+       | some svc, some ov, some name =>
+           (s, if (publisherSubj svc ov "").str = (subscriberSubj name "").str then "same" else "diff")
+       | _, _, _ => (s, "bad-op"))
+  | ["cfgsubj", name] =>
+      (match decS name with
+       | some name => (s, encS (cfgSubj name))
        | none => (s, "bad-op"))
   | ["expire"] => ({ s with sys := expire s.sys }, s!"ok n={s.sys.cache.length}")
   | ["restore", v] =>
